@@ -504,4 +504,30 @@ theorem cuts_unique (bs : Nat) (F : List Nat) : ∀ (a b : List Nat) (off : Nat)
         rw [this]; exact List.mem_cons_self
       · exact h0
 
+theorem flatten_eq_of_lengths : ∀ (a b : List Bytes), a.flatten = b.flatten → a.map List.length = b.map List.length → a = b
+  | [], [], _, _ => rfl
+  | [], _ :: _, _, h => by simp at h
+  | _ :: _, [], _, h => by simp at h
+  | x :: xs, y :: ys, hf, hl => by
+    simp only [List.map_cons, List.cons.injEq] at hl
+    simp only [List.flatten_cons] at hf
+    have hxy : x = y := by
+      have := congrArg (List.take x.length) hf
+      rw [List.take_left' rfl, hl.1, List.take_left' rfl] at this
+      exact this
+    subst hxy
+    rw [flatten_eq_of_lengths xs ys (List.append_cancel_left hf) hl.2]
+
+
+theorem reachable_run {P : Params} {c : Cfg} {s s' : St} (evs : List Ev) (hr : Reachable P c s) (h : run P s evs = some s') :
+    Reachable P c s' := by
+  induction evs generalizing s with
+  | nil => simp [run] at h; exact h ▸ hr
+  | cons e es ih =>
+    simp only [run] at h
+    cases hs : step P s e with
+    | none => simp [hs] at h
+    | some s1 => simp [hs] at h; exact ih (Reachable.step e hr hs) h
+
+
 end XzVerif.MtEnc
